@@ -256,7 +256,12 @@ func c18Gen(rng *kit.RNG, idx int) c18Case {
 			at := strings.Join(comps[:k], "/")
 			switch r := rng.Intn(10); {
 			case r < 5:
-				c.Pre = append(c.Pre, c18Pre{Path: at, Kind: "symlink", Target: kit.Pick(rng, c18OutsideTargets)})
+				tgt := kit.Pick(rng, c18OutsideTargets)
+				if (tgt == "@UP@outside" || tgt == "@BOX@/outside") && k < len(comps)-1 && rng.Bool() {
+					// let the deeper directories of the restored path exist behind the symlink
+					c.Pre = append(c.Pre, c18Pre{Path: strings.Join(comps[k:len(comps)-1], "/"), Kind: "outdir"})
+				}
+				c.Pre = append(c.Pre, c18Pre{Path: at, Kind: "symlink", Target: tgt})
 				for _, q := range paths { // the symlink sits at a directory position of some restored path
 					if strings.HasPrefix(q, "/"+at+"/") {
 						c.feature("presym-intermediate")
@@ -332,6 +337,10 @@ func c18Regressions() []c18Case {
 		// F4a: include selects /a/b/file but not /a; target/a is a symlink to ../outside
 		{Regress: "regress-incsym", Sorted: true, Overwrite: "always", Tree: []*c18Node{deep()}, Include: []string{"/a/b/file"},
 			Pre: []c18Pre{{Path: "a", Kind: "symlink", Target: "@UP@outside"}}, Features: []string{"include", "presym", "presym-intermediate"}},
+		// same, but the rest of the path already exists behind the symlink (outside/b): a "directory
+		// already exists" shortcut must not skip the per-component check (seeded change C18-1)
+		{Regress: "regress-incsym-populated", Sorted: true, Overwrite: "always", Tree: []*c18Node{deep()}, Include: []string{"/a/b/file"},
+			Pre: []c18Pre{{Path: "b", Kind: "outdir"}, {Path: "a", Kind: "symlink", Target: "@UP@outside"}}, Features: []string{"include", "presym", "presym-intermediate"}},
 		// F4b: duplicate name: symlink x -> outside file, then regular file x with mode 0777
 		{Regress: "regress-dup-symlink-file", Sorted: true, Overwrite: "always", Features: []string{"dup"}, Tree: []*c18Node{
 			{Name: "x", Type: "symlink", Target: "@BOX@/outside/sentinel", Mtime: 1400000000},
@@ -527,6 +536,13 @@ func c18Run(t *testing.T, rec *kit.Rec, c c18Case) {
 	}
 	npre := 0
 	for i, pe := range c.Pre {
+		if pe.Kind == "outdir" {
+			// directories OUTSIDE the target (below box/outside) that make the rest of a restored
+			// path resolve behind a planted symlink (seeded change C18-1)
+			_ = os.MkdirAll(filepath.Join(box, "outside", pe.Path), 0o750)
+			npre++
+			continue
+		}
 		if !safeParent(pe.Path) {
 			continue
 		}
